@@ -805,7 +805,82 @@ def _stored_names(e) -> Set[str]:
     return {n.id for n in ast.walk(e) if isinstance(n, ast.Name) and isinstance(n.ctx, ast.Store)}
 
 
+def _arith_only(e, allowed_calls=("len",)) -> bool:
+    """Names, constants, + - *, and len() of a name: evaluating it twice gives the same outcome."""
+    if isinstance(e, (ast.Name, ast.Constant)):
+        return True
+    if isinstance(e, ast.BinOp) and isinstance(e.op, (ast.Add, ast.Sub, ast.Mult)):
+        return _arith_only(e.left) and _arith_only(e.right)
+    if isinstance(e, ast.Call) and isinstance(e.func, ast.Name) and e.func.id in allowed_calls and len(e.args) == 1 and not e.keywords and isinstance(e.args[0], ast.Name):
+        return True
+    return False
+
+
+def _monotone_breaks(fn):
+    """``for v in range(a, b): prefix; if not E(v) < K: break; rest``  ->  ``... continue ...``
+    when E is non-decreasing in v (v, v + c, c + v, or a prefix local bound to one of these), K and c
+    do not change in the loop, the prefix is arithmetic on locals, the loop has no else clause and
+    neither v nor the prefix locals are read outside the loop: once the test holds it holds for every
+    later v, so that leaving the loop and skipping the remaining iterations are the same."""
+    loops = [n for n in _walk_no_nested(fn) if isinstance(n, ast.For)]
+    for loop in loops:
+        if loop.orelse or not isinstance(loop.target, ast.Name):
+            continue
+        it = loop.iter
+        if not (isinstance(it, ast.Call) and isinstance(it.func, ast.Name) and it.func.id == "range" and not it.keywords and 1 <= len(it.args) <= 3):
+            continue
+        if len(it.args) == 3 and not (isinstance(it.args[2], ast.Constant) and type(it.args[2].value) is int and it.args[2].value > 0):
+            continue
+        v = loop.target.id
+        ef = _effects(ast.Module(body=loop.body, type_ignores=[]))
+        written = set(ef.writes) | {v}
+        if _yield_is_barrier(fn) and any(isinstance(x, (ast.Yield, ast.YieldFrom)) for s2 in loop.body for x in ast.walk(s2)):
+            continue
+        for pos, st in enumerate(loop.body):
+            if not (isinstance(st, ast.If) and not st.orelse and len(st.body) == 1 and isinstance(st.body[0], ast.Break)):
+                continue
+            prefix = loop.body[:pos]
+            if not all(isinstance(p, ast.Assign) and len(p.targets) == 1 and isinstance(p.targets[0], ast.Name) and _arith_only(p.value, ()) for p in prefix):
+                continue
+            pre_names = [p.targets[0].id for p in prefix]
+            if len(set(pre_names)) != len(pre_names) or v in pre_names:
+                continue
+            # the prefix locals and v are written nowhere else in the loop and read nowhere outside it
+            stores = [x.id for s in loop.body for x in ast.walk(s) if isinstance(x, ast.Name) and isinstance(x.ctx, (ast.Store, ast.Del))]
+            if any(stores.count(nm) != 1 for nm in pre_names) or v in stores:
+                continue
+            inside = {id(x) for s in loop.body for x in ast.walk(s)}
+            if any(isinstance(x, ast.Name) and x.id in set(pre_names) | {v} and id(x) not in inside and x is not loop.target for x in ast.walk(fn)):
+                continue
+            invariant = lambda e: _arith_only(e) and not (_names_loaded(e) & written) and not ef.opaque  # noqa: E731
+
+            def increasing(e, depth=0) -> bool:
+                if isinstance(e, ast.Name):
+                    if e.id == v:
+                        return True
+                    if e.id in pre_names and depth < 4:
+                        return increasing(prefix[pre_names.index(e.id)].value, depth + 1)
+                    return False
+                if isinstance(e, ast.BinOp) and isinstance(e.op, ast.Add):
+                    return (increasing(e.left, depth) and invariant(e.right)) or (invariant(e.left) and increasing(e.right, depth))
+                return False
+
+            t, positive = st.test, True
+            while isinstance(t, ast.UnaryOp) and isinstance(t.op, ast.Not):
+                t, positive = t.operand, not positive
+            if not (isinstance(t, ast.Compare) and len(t.ops) == 1):
+                continue
+            left, op, right = t.left, t.ops[0], t.comparators[0]
+            big_left = isinstance(op, (ast.Gt, ast.GtE)) if positive else isinstance(op, (ast.Lt, ast.LtE))
+            big_right = isinstance(op, (ast.Lt, ast.LtE)) if positive else isinstance(op, (ast.Gt, ast.GtE))
+            if (big_left and increasing(left) and invariant(right)) or (big_right and increasing(right) and invariant(left)):
+                st.body = [ast.Continue()]
+    ast.fix_missing_locations(fn)
+    return fn
+
+
 def control_flow(fn):
+    fn = _monotone_breaks(fn)
     fn.body = _norm_block(fn.body, "return") or [ast.Pass()]
     ast.fix_missing_locations(fn)
     return fn
@@ -913,7 +988,88 @@ def fuse_accumulators(fn):
     return fn
 
 
+def _append_target(st) -> Optional[str]:
+    if isinstance(st, ast.Expr) and isinstance(st.value, ast.Call) and isinstance(st.value.func, ast.Attribute) and st.value.func.attr == "append" and isinstance(st.value.func.value, ast.Name) and len(st.value.args) == 1 and not st.value.keywords:
+        return st.value.func.value.id
+    if isinstance(st, ast.AugAssign) and isinstance(st.op, ast.Add) and isinstance(st.target, ast.Name) and isinstance(st.value, ast.List) and len(st.value.elts) == 1:
+        return st.target.id
+    return None
+
+
+def split_partition_loops(fn):
+    """One loop that distributes the elements of S over several local lists
+    (``for x in S: if c: a.append(x) else: b.append(x)``) becomes one loop per list, each keeping
+    the tests that lead to its appends: the lists receive the same elements in the same order.  S,
+    the tests and the elements must be free of effects and must not read the lists; S must be
+    iterable twice (self, a field / item of an object, a list built here: not a bare parameter)."""
+    if any(isinstance(n, ast.Try) for n in _walk_no_nested(fn)):
+        return fn
+    lists = _list_names(fn) - set(_params(fn))
+    for owner, f, stmts in _blocks(fn):
+        for i, loop in enumerate(stmts):
+            if not isinstance(loop, ast.For) or loop.orelse:
+                continue
+            S = loop.iter
+            if not ((isinstance(S, ast.Name) and (S.id == "self" or S.id in lists)) or (isinstance(S, (ast.Attribute, ast.Subscript)) and _is_place(S))):
+                continue
+            accs: List[str] = []
+            exprs: List[ast.expr] = [S]
+            ok = True
+
+            def scan(block):
+                nonlocal ok
+                for st in block:
+                    if isinstance(st, ast.Pass):
+                        continue
+                    if isinstance(st, ast.If):
+                        exprs.append(st.test)
+                        scan(st.body)
+                        scan(st.orelse)
+                        continue
+                    a = _append_target(st)
+                    if a is None or a not in lists:
+                        ok = False
+                        return
+                    if a not in accs:
+                        accs.append(a)
+                    exprs.append(st.value.args[0] if isinstance(st, ast.Expr) else st.value.elts[0])
+
+            scan(loop.body)
+            if not ok or len(accs) < 2:
+                continue
+            tnames = {x.id for x in ast.walk(loop.target) if isinstance(x, ast.Name)}
+            if any(_impure(e) for e in exprs) or any(set(accs) & _names_loaded(e) for e in exprs) or tnames & set(accs):
+                continue
+            if _yield_is_barrier(fn) and any(isinstance(y, (ast.Yield, ast.YieldFrom)) for y in ast.walk(loop)):
+                continue
+            inside = {id(y) for y in ast.walk(loop)}
+            if any(isinstance(y, ast.Name) and y.id in tnames and id(y) not in inside for y in ast.walk(fn)):
+                continue  # the loop variable is read after the loop
+
+            def prune(block, acc):
+                out = []
+                for st in block:
+                    if isinstance(st, ast.Pass):
+                        continue
+                    if isinstance(st, ast.If):
+                        b, o = prune(st.body, acc), prune(st.orelse, acc)
+                        if b:
+                            out.append(ast.If(test=copy.deepcopy(st.test), body=b, orelse=o))
+                        elif o:
+                            out.append(ast.If(test=_neg(copy.deepcopy(st.test)), body=o, orelse=[]))
+                    elif _append_target(st) == acc:
+                        out.append(copy.deepcopy(st))
+                return out
+
+            new_loops = [ast.For(target=copy.deepcopy(loop.target), iter=copy.deepcopy(S), body=prune(loop.body, a), orelse=[]) for a in accs]
+            stmts[i:i + 1] = new_loops
+            ast.fix_missing_locations(fn)
+            return split_partition_loops(fn)
+    return fn
+
+
 def loops_to_comprehensions(fn):
+    fn = split_partition_loops(fn)
     changed = True
     rounds = 0
     while changed and rounds < 6:
@@ -952,6 +1108,37 @@ def loops_to_comprehensions(fn):
                 break
             if changed:
                 break
+        if not changed:
+            # for ...: acc.append(e)   ->   acc += [e for ...]   for a list built in this function: the
+            # elements reach it in the same order (one normal form with a temporary list added at once)
+            lists = _list_names(fn) - set(_params(fn))
+            has_try = any(isinstance(n, ast.Try) for n in _walk_no_nested(fn))
+            for owner, f, stmts in _blocks(fn):
+                for i, st in enumerate(stmts):
+                    if not isinstance(st, ast.For) or has_try:
+                        continue
+                    cur = st
+                    while isinstance(cur, (ast.For, ast.If)) and len([s for s in cur.body if not isinstance(s, ast.Pass)]) == 1:
+                        cur = [s for s in cur.body if not isinstance(s, ast.Pass)][0]
+                    acc = None
+                    if isinstance(cur, ast.Expr) and isinstance(cur.value, ast.Call) and isinstance(cur.value.func, ast.Attribute) and isinstance(cur.value.func.value, ast.Name) and cur.value.func.attr in ("append", "extend"):
+                        acc = cur.value.func.value.id
+                    elif isinstance(cur, ast.AugAssign) and isinstance(cur.target, ast.Name) and isinstance(cur.op, ast.Add):
+                        acc = cur.target.id
+                    if acc is None or acc not in lists:
+                        continue
+                    res = _loop_to_generators(st, acc)
+                    if res is None or res[1][0] != "list":
+                        continue
+                    gens, elt = res
+                    if any(_impure(x) for g in gens for x in [g[1]] + g[2]) or _impure(elt[1]):
+                        continue
+                    comps = [ast.comprehension(target=copy.deepcopy(_as_store(t)), iter=it, ifs=ifs, is_async=0) for t, it, ifs in gens]
+                    stmts[i] = ast.AugAssign(target=ast.Name(id=acc, ctx=ast.Store()), op=ast.Add(), value=ast.ListComp(elt=elt[1], generators=comps))
+                    changed = True
+                    break
+                if changed:
+                    break
         ast.fix_missing_locations(fn)
     return fn
 
@@ -971,6 +1158,8 @@ def _as_store(t):
 # free of effects on their arguments, on self and on globals (set by substitute_all from BOTH the
 # reference and the current tree: a function counts as pure only if it is pure in both)
 _LIST_RETURNING: Set[str] = set()  # module-level repo functions annotated `-> list[...]` (in both trees)
+_EAGER_GENERATORS: Set[str] = set()
+_YIELD_OPAQUE = False
 _REPO_FUNCS: Set[str] = set()
 _PURE_FUNCS: Set[str] = set()
 _BUILTIN_PURE = {"len", "list", "sorted", "set", "dict", "tuple", "str", "int", "float", "any", "all", "max", "min", "sum", "range", "zip", "enumerate",
@@ -980,7 +1169,7 @@ _BUILTIN_PURE = {"len", "list", "sorted", "set", "dict", "tuple", "str", "int", 
 _LIB_PURE_METHODS = {"values", "get", "keys", "items", "index", "copy"}  # dict / list / pandas readers that repo classes also define (as readers)
 
 
-def _fresh_locals(fn) -> Set[str]:
+def _fresh_locals(fn, wide: bool = False) -> Set[str]:
     """Locals every binding of which creates a new object in the function (display, comprehension,
     constructor-like call): mutating them is invisible outside."""
     params = set(_params(fn))
@@ -1012,6 +1201,13 @@ def _fresh_locals(fn) -> Set[str]:
             return True
         if isinstance(e, ast.Call) and isinstance(e.func, ast.Name) and e.func.id in ("list", "dict", "set", "sorted", "DataFrame", "Series", "GroupedList"):
             return True
+        if wide:
+            # also values no other name can refer to: results of operators and of library functions
+            # that build their result (isna(x), unique(x), len(x))
+            if isinstance(e, (ast.Compare, ast.BinOp, ast.UnaryOp, ast.Constant, ast.JoinedStr)):
+                return True
+            if isinstance(e, ast.Call) and isinstance(e.func, ast.Name) and e.func.id in ("isna", "notna", "isnan", "unique", "len", "any", "all", "sum", "min", "max", "zeros", "ones", "arange", "range", "tuple", "str", "int", "float", "bool", "abs", "round"):
+                return True
         return False
 
     return {v for v, ds in defs.items() if v not in params and ds and all(d is not None and fresh(d) for d in ds)}
@@ -1073,7 +1269,7 @@ def pure_function_names(trees: List[ast.Module]) -> Tuple[Set[str], Set[str]]:
     repo = set(funcs) | set(classes)
     pure: Set[str] = set()
     for _ in range(6):
-        new = {name for name, nodes in funcs.items() if nodes and name != "__init__" and all(_function_is_pure(x, pure, repo) for x in nodes)}
+        new = {name for name, nodes in funcs.items() if nodes and name != "__init__" and all(_function_is_pure(x, pure | {name}, repo) for x in nodes)}  # a call of itself (or of a library method of the same name) adds nothing
         # a constructor is pure when its __init__ only builds the new object (GroupedList(...))
         new |= {c for c, inits in classes.items() if inits and all(_function_is_pure(x, pure, repo, constructor=True) for x in inits) and not any(
             isinstance(n, ast.Call) and isinstance(n.func, ast.Attribute) and n.func.attr == "__init__" and isinstance(n.func.value, ast.Call) and len(x.args.args) > 3 for x in inits for n in ast.walk(x))}
@@ -1555,6 +1751,50 @@ def _enumerate_start(fn):
     return fn
 
 
+def _enumerate_to_range(fn):
+    """for i, x in enumerate(L)  ->  for i in range(len(L))  with x replaced by L[i], when L is a
+    name that the loop body neither re-binds nor changes and that the body slices unconditionally
+    (``L[:]``, ``L[a:b]``: evidence that L is a sequence, for which the two spellings agree)."""
+    for n in list(_walk_no_nested(fn)):
+        if not (isinstance(n, ast.For) and isinstance(n.iter, ast.Call) and isinstance(n.iter.func, ast.Name) and n.iter.func.id == "enumerate"
+                and len(n.iter.args) == 1 and not n.iter.keywords and isinstance(n.iter.args[0], ast.Name)):
+            continue
+        tg = n.target
+        if not (isinstance(tg, ast.Tuple) and len(tg.elts) == 2 and all(isinstance(x, ast.Name) for x in tg.elts)):
+            continue
+        i, x, L = tg.elts[0].id, tg.elts[1].id, n.iter.args[0].id
+        if len({i, x, L}) != 3:
+            continue
+        ef = _effects(ast.Module(body=n.body, type_ignores=[]))
+        if ef.opaque or {i, x, L} & ef.writes or L in ef.attr_bases:
+            continue
+        if _yield_is_barrier(fn) and any(isinstance(y, (ast.Yield, ast.YieldFrom)) for st in n.body for y in ast.walk(st)):
+            continue
+        sliced = False
+        for st in n.body:
+            if isinstance(st, (ast.Assign, ast.Expr, ast.AugAssign)):
+                if any(isinstance(y, ast.Subscript) and isinstance(y.slice, ast.Slice) and isinstance(y.value, ast.Name) and y.value.id == L and isinstance(y.ctx, ast.Load) for y in ast.walk(st)):
+                    sliced = True
+                    break
+            else:
+                break
+        if not sliced:
+            continue
+        # x must not be read after the loop (it would be unbound / stale in the other spelling)
+        inside = {id(y) for st in n.body for y in ast.walk(st)}
+        if any(isinstance(y, ast.Name) and y.id == x and id(y) not in inside and y is not tg.elts[1] for y in ast.walk(fn)):
+            continue
+        look = ast.Subscript(value=ast.Name(id=L, ctx=ast.Load()), slice=ast.Name(id=i, ctx=ast.Load()), ctx=ast.Load())
+        for st in n.body:
+            for y in list(ast.walk(st)):
+                if isinstance(y, ast.Name) and y.id == x and isinstance(y.ctx, ast.Load):
+                    _replace_node(st, y, copy.deepcopy(look))
+        n.target = ast.Name(id=i, ctx=ast.Store())
+        n.iter = ast.Call(func=ast.Name(id="range", ctx=ast.Load()), args=[ast.Call(func=ast.Name(id="len", ctx=ast.Load()), args=[ast.Name(id=L, ctx=ast.Load())], keywords=[])], keywords=[])
+    ast.fix_missing_locations(fn)
+    return fn
+
+
 def _items_to_keys(fn):
     """for k, v in D.items()  ->  for k in D  with v replaced by D[k]  (comprehensions, and loops whose
     body does not write D): one normal form for the two spellings."""
@@ -1606,6 +1846,7 @@ def expressions(fn):
     fn = _copy_overwrite(fn)
     fn = _items_to_keys(fn)
     fn = _enumerate_start(fn)
+    fn = _enumerate_to_range(fn)
     fn = _dict_forward(fn)
     fn = _ExprCanon(_list_names(fn)).visit(fn)
     # P = P
@@ -1630,7 +1871,10 @@ def expressions(fn):
                     vals = v.elts
                 elif isinstance(v, ast.BinOp) and isinstance(v.op, ast.Mult) and isinstance(v.left, ast.Tuple) and len(v.left.elts) == 1 and isinstance(v.left.elts[0], ast.Constant) and isinstance(v.right, ast.Constant) and v.right.value == len(tgts):
                     vals = [copy.deepcopy(v.left.elts[0]) for _ in tgts]
-                if only_names and vals is not None and not any(set(names) & _names_loaded(x) for x in vals) and not any(_impure(x) for x in vals):
+                # t1 = e1 ; t2 = e2 ... in this order: a later value must not read an earlier target
+                seq_ok = vals is not None and all(isinstance(t, ast.Name) for t in tgts) and len(set(names)) == len(names) and not any(
+                    tgts[i].id in _names_loaded(vals[j]) for i in range(len(tgts)) for j in range(i + 1, len(tgts)))
+                if only_names and vals is not None and (seq_ok or not any(set(names) & _names_loaded(x) for x in vals)) and not any(_impure(x) for x in vals):
                     for t, x in zip(tgts, vals):
                         new.append(ast.Assign(targets=[t], value=x))
                     continue
@@ -1732,10 +1976,14 @@ def _write_effects(st) -> Tuple[Set[str], Set[str], bool]:
                 opaque = True
             if any(k.arg == "inplace" for k in n.keywords):
                 opaque = True
+        elif isinstance(n, (ast.Yield, ast.YieldFrom)) and _YIELD_OPAQUE:
+            opaque = True  # the consumer of the generator runs here
     return names, attrs, opaque
 
 
 def inline_temporaries(fn, only=None):
+    global _YIELD_OPAQUE
+    _YIELD_OPAQUE = _yield_is_barrier(fn)
     if _has_nested_scope(fn):
         nested_free = set()
         for n in _walk_no_nested(fn):
@@ -1745,6 +1993,7 @@ def inline_temporaries(fn, only=None):
         nested_free = set()
     for _round in range(12):
         params = set(_params(fn))
+        fresh_locals = _fresh_locals(fn, wide=True)
         stores: Dict[str, List[ast.Name]] = {}
         loads: Dict[str, List[ast.Name]] = {}
         for n in _walk_no_nested(fn):
@@ -1866,6 +2115,12 @@ def inline_temporaries(fn, only=None):
                 reads = _names_loaded(rhs) - _comp_bound(rhs)
                 read_attrs = {n.attr for n in ast.walk(rhs) if isinstance(n, ast.Attribute)}
                 reads_state = bool(read_attrs) or any(isinstance(n, ast.Subscript) for n in ast.walk(rhs))
+                # a call reads the state of its arguments (len(L), list(d)): that of an object built in
+                # this function can only be changed by a statement that mentions it, anything else
+                # (a parameter, an alias of a field) by any call the model does not know
+                call_reads = {x.id for c_ in ast.walk(rhs) if isinstance(c_, ast.Call) for a_ in list(c_.args) + [k_.value for k_ in c_.keywords] for x in ast.walk(a_) if isinstance(x, ast.Name)} - _comp_bound(rhs)
+                if call_reads - fresh_locals:
+                    reads_state = True
                 bad = False
                 for sid, (o2, f2, s2) in all_stmts.items():
                     p2 = order.get(sid)
@@ -1882,6 +2137,9 @@ def inline_temporaries(fn, only=None):
                         bad = True
                         break
                     if wa & read_attrs:
+                        bad = True
+                        break
+                    if opaque and not reads_state and call_reads and call_reads & {x.id for x in ast.walk(s2) if isinstance(x, ast.Name)} and not (is_use_stmt and p2 == last):
                         bad = True
                         break
                     if opaque and reads_state and not is_use_stmt:
@@ -2027,7 +2285,14 @@ def split_variables(fn):
                     loops2 = [a for a in chain[id(d2[4])] if isinstance(a, (ast.For, ast.While))] + ([d2[3]] if d2[3] is not None else [])
                     for L in loops2:
                         if L in anc and L not in d_loops:
-                            union(k, best)  # reaches the use through the loop's back edge
+                            # ... unless an unconditional later binding in the loop's own block
+                            # overwrites it before the back edge (and no `continue` can skip that)
+                            killed = any(
+                                d3[0] > p2 and d3[3] is None and isinstance(d3[4], ast.Assign) and any(d3[4] is s_ for s_ in L.body)
+                                and len(d3[4].targets) == 1 and isinstance(d3[4].targets[0], ast.Name)
+                                for d3 in defs) and not any(isinstance(x_, ast.Continue) for x_ in ast.walk(L))
+                            if not killed:
+                                union(k, best)  # reaches the use through the loop's back edge
             assign[id(u)] = best
         if not ok:
             continue
@@ -2615,10 +2880,51 @@ def substitute_equivalents(rel: str, tree: ast.Module, ref_sources: Dict[str, st
     stats.setdefault("proved_equivalent", []).extend(f"{rel}::{q}" for q in substituted)
 
 
+def eager_generators(trees: List[ast.Module]) -> Set[str]:
+    """Module-level generator functions every use of which consumes the generator on the spot
+    (``list(g(..))``, or the iterable of a list / set / dict comprehension whose element and
+    conditions have no effect): nothing else runs between two of their ``yield``s, so a value read
+    before a yield is still the same after it.  For any other generator a ``yield`` is a point where
+    arbitrary code of the consumer runs."""
+    gens: Set[str] = set()
+    for t in trees:
+        for n in t.body:
+            if isinstance(n, ast.FunctionDef) and any(isinstance(x, (ast.Yield, ast.YieldFrom)) for x in _walk_no_nested(n)):
+                gens.add(n.name)
+    ok = set(gens)
+    for t in trees:
+        parent = {}
+        for n in ast.walk(t):
+            for ch in ast.iter_child_nodes(n):
+                parent[id(ch)] = n
+        for n in ast.walk(t):
+            if not (isinstance(n, ast.Name) and n.id in gens and isinstance(n.ctx, ast.Load)):
+                continue
+            call = parent.get(id(n))
+            if not (isinstance(call, ast.Call) and call.func is n):
+                ok.discard(n.id)
+                continue
+            user = parent.get(id(call))
+            if isinstance(user, ast.Call) and isinstance(user.func, ast.Name) and user.func.id in ("list", "tuple", "sorted", "set") and user.args[:1] == [call]:
+                continue
+            if isinstance(user, ast.comprehension) and user.iter is call:
+                comp = parent.get(id(user))
+                if isinstance(comp, (ast.ListComp, ast.SetComp, ast.DictComp)) and comp.generators[0] is user:
+                    parts = ([comp.key, comp.value] if isinstance(comp, ast.DictComp) else [comp.elt]) + [c for g in comp.generators for c in g.ifs] + [g.iter for g in comp.generators[1:]]
+                    if not any(_impure(x) or any(isinstance(y, ast.Call) for y in ast.walk(x)) for x in parts):
+                        continue
+            ok.discard(n.id)
+    return ok
+
+
+def _yield_is_barrier(fn) -> bool:
+    return fn.name not in _EAGER_GENERATORS
+
+
 def substitute_all(trees: Dict[str, ast.Module], sources: Dict[str, str], ref_sources: Dict[str, str], stats: Dict[str, list]) -> None:
     """All modules at once: new private methods can be called from another module (a helper added
     to a base class)."""
-    global _REPO_FUNCS, _PURE_FUNCS, _LIST_RETURNING
+    global _REPO_FUNCS, _PURE_FUNCS, _LIST_RETURNING, _EAGER_GENERATORS
     ref_trees = []
     for rel, src in ref_sources.items():
         if rel not in _REF_CACHE:
@@ -2641,6 +2947,7 @@ def substitute_all(trees: Dict[str, ast.Module], sources: Dict[str, str], ref_so
     lb, fb = list_returning(list(trees.values()))
     _LIST_RETURNING = {f for f in la | lb if (f not in fa or f in la) and (f not in fb or f in lb)}
     _REPO_FUNCS = repo_a | repo_b
+    _EAGER_GENERATORS = eager_generators(list(trees.values())) & eager_generators(ref_trees)
     _PURE_FUNCS = {f for f in (pure_a | pure_b) if (f not in repo_a or f in pure_a) and (f not in repo_b or f in pure_b)}
     new_methods: Dict[str, ast.FunctionDef] = {}
     owners: Dict[str, Tuple[str, List[ast.stmt]]] = {}
